@@ -71,10 +71,74 @@ Proof.
     f_equal. pose proof (Nat.div_mod n 10 ltac:(lia)). lia.
 Qed.
 
-Lemma py_int_dec n : py_int (dec n) = Some n.
+(* every byte of a decimal numeral is a digit *)
+Definition isdig (c : N) : bool := match digit_val c with Some _ => true | None => false end.
+
+Lemma dec_isdig n : Forall (fun c => isdig c = true) (dec n).
 Proof.
-  unfold py_int. pose proof (dec_nonempty n). pose proof (int_dec n).
-  destruct (dec n); [congruence|assumption].
+  induction n as [n IH] using lt_wf_ind. rewrite dec_eqn.
+  destruct (Nat.ltb n 10) eqn:E.
+  - apply Nat.ltb_lt in E. constructor; [|constructor]. unfold isdig. rewrite digit_val_digit by assumption.
+    reflexivity.
+  - apply Nat.ltb_ge in E. apply Forall_app. split.
+    + apply IH. apply Nat.div_lt; lia.
+    + constructor; [|constructor]. unfold isdig.
+      rewrite digit_val_digit by (apply Nat.mod_upper_bound; lia). reflexivity.
+Qed.
+
+Lemma isdig_range c : isdig c = true -> (48 <= c <= 57)%N.
+Proof.
+  unfold isdig, digit_val. destruct (N.leb 48 c && N.leb c 57) eqn:E; [|discriminate].
+  apply andb_true_iff in E as [E1 E2]. apply N.leb_le in E1, E2. lia.
+Qed.
+
+Lemma isdig_not_ws c : isdig c = true -> is_ws c = false.
+Proof.
+  intro H. apply isdig_range in H. unfold is_ws.
+  assert (E1 : N.eqb c 32 = false) by (apply N.eqb_neq; lia).
+  assert (E2 : N.leb c 13 = false) by (apply N.leb_gt; lia).
+  rewrite E1, E2, andb_false_r. reflexivity.
+Qed.
+
+Lemma isdig_neq c k : isdig c = true -> (k < 48 \/ 57 < k)%N -> N.eqb c k = false.
+Proof. intros H Hk. apply isdig_range in H. apply N.eqb_neq. lia. Qed.
+
+Lemma lstrip_ws_digits l : Forall (fun c => isdig c = true) l -> lstrip_ws l = l.
+Proof.
+  destruct l as [|c r]; intro H; [reflexivity|]. inversion H; subst. cbn [lstrip_ws].
+  rewrite isdig_not_ws by assumption. reflexivity.
+Qed.
+
+Lemma strip_ws_digits l : Forall (fun c => isdig c = true) l -> strip_ws l = l.
+Proof.
+  intro H. unfold strip_ws. rewrite (lstrip_ws_digits l H).
+  rewrite lstrip_ws_digits by (apply Forall_rev; exact H). apply rev_involutive.
+Qed.
+
+Lemma us_ok_digits : forall l, Forall (fun c => isdig c = true) l -> us_ok l false = true.
+Proof.
+  induction l as [|c r IH]; intro H; [reflexivity|]. inversion H as [|? ? Hc Hr]; subst. cbn [us_ok].
+  unfold isdig in Hc. destruct (digit_val c); [apply IH; assumption|discriminate].
+Qed.
+
+Lemma filter_us_digits l :
+  Forall (fun c => isdig c = true) l -> filter (fun c => negb (N.eqb c 95)) l = l.
+Proof.
+  induction l as [|c r IH]; intro H; [reflexivity|]. inversion H as [|? ? Hc Hr]; subst. cbn [filter].
+  rewrite (isdig_neq c 95 Hc) by lia. cbn [negb]. rewrite IH by assumption. reflexivity.
+Qed.
+
+Lemma py_int_dec n : py_int (dec n) = Some (Z.of_nat n).
+Proof.
+  pose proof (dec_isdig n) as Hd. pose proof (dec_nonempty n) as Hne. pose proof (int_dec n) as Hi.
+  unfold py_int. rewrite strip_ws_digits by assumption.
+  destruct (dec n) as [|c r] eqn:E; [congruence|].
+  inversion Hd as [|? ? Hc Hr]; subst.
+  rewrite (isdig_neq c 43 Hc) by lia. rewrite (isdig_neq c 45 Hc) by lia.
+  cbn [us_ok]. unfold isdig in Hc. destruct (digit_val c) eqn:Ec; [|discriminate].
+  rewrite us_ok_digits by assumption.
+  rewrite filter_us_digits by (constructor; [unfold isdig; rewrite Ec; reflexivity|assumption]).
+  rewrite Hi. reflexivity.
 Qed.
 
 Lemma dec_no_colon n : Forall (fun c => c <> 58%N) (dec n).
